@@ -381,6 +381,13 @@ func packageFunctions(prog *ssa.Program, sp *ssa.Package) []*ssa.Function {
 		switch x := m.(type) {
 		case *ssa.Function:
 			addFn(x)
+			// function literals in package-level variable initialisers belong to the synthetic package
+			// initialiser: they can be put under contract as init$N
+			if x.Name() == "init" && x.Synthetic != "" {
+				for _, a := range x.AnonFuncs {
+					addFn(a)
+				}
+			}
 		case *ssa.Type:
 			named, ok := x.Type().(*types.Named)
 			if !ok {
